@@ -616,6 +616,9 @@ Qed.
 Lemma pinv_set_err : forall g e, pinv g -> pinv (set_err e g).
 Proof. intros g e I. eapply pinv_nodes_pending; [| |exact I]; reflexivity. Qed.
 
+Lemma pinv_set_prenode : forall g x, pinv g -> pinv (set_h_prenode x g).
+Proof. intros g x I. eapply pinv_nodes_pending; [| |exact I]; reflexivity. Qed.
+
 (* in every state any call sequence can produce *)
 Theorem reachable_pinv :
   (forall v st cs, pinv (final (gstep v) (g_init CGraph st) cs))
@@ -628,7 +631,7 @@ Proof.
   - apply (run_keeps (cstep v) (fun c => pinv (c_g c))); [|apply pinv_init].
     intros s c H. apply (lcinv_cstep pinv pinv_add_node pinv_add_edge pinv_add_branch pinv_compile). exact H.
   - apply (run_keeps (wstep v) (fun w => pinv (w_g w))); [|apply pinv_init].
-    intros s c H. apply (lwinv_wstep pinv pinv_add_node pinv_add_edge pinv_add_branch pinv_compile pinv_set_err). exact H.
+    intros s c H. apply (lwinv_wstep pinv pinv_add_node pinv_add_edge pinv_add_branch pinv_compile pinv_set_err pinv_set_prenode). exact H.
 Qed.
 
 (* what the code does on AddEdge / AddBranch: push one entry between known nodes, infer.
